@@ -147,11 +147,13 @@ class MinimizerBase(object):
         :return: the asymmetric parameter errors for all parameters.
         :rtype numpy.ndarray of shape (num_pars, 2)
         """
-        self.minimize()
         _ = self.parameter_errors  # call par error property so they're initialized for _save_state
         self._save_state()
         _asymm_par_errs = np.zeros(shape=self.parameter_values.shape + (2,))
         try:
+            self.minimize()
+            _ = self.parameter_errors
+            self._save_state()
             for _par_index, _par_name in enumerate(self.parameter_names):
                 if self.is_fixed(_par_name):
                     _asymm_par_errs[_par_index, :] = 0
